@@ -4,8 +4,14 @@
      (recomputed with mpmath at 50 digits);
  (2) wiring, for every supported length: fft passes the table; ifft passes, element for element, the
      conjugates of the first n table entries and 1/n; split uses the conjugated table, merge the table itself.
-Not decided: the 2^-30 accuracy bound for all inputs (a rounding-error analysis; its only repository-specific
-premise is (1)), and that the generic butterflies compute the transform."""
+ (3) algebra in exact arithmetic (added while building): fft / ifft / split_fft / merge_fft are interpreted on vectors
+     of n symbolic complex numbers; every output element's expression tree (over the inputs and the table's
+     constants) is compared by identity testing with the definition: fft(a)[i] = a(r_i), r_i^n = -1, r_i pairwise
+     distinct; ifft(fft(a)) = a; ifft(fft(a) .* fft(b)) = a*b mod (X^n+1) (small n); merge(split(F)) = F;
+     split(fft(a)) = (fft(a_even), fft(a_odd)). Tolerance 1e-9 relative: this is the algebra, NOT the error bound.
+     quick: n = 2 .. 128; thorough: n = 2 .. 1024.
+Not decided: the 2^-30 accuracy bound for all inputs (a rounding-error analysis; its repository-specific premises
+are (1) and (3))."""
 import struct
 
 from fv.absint import St, Pt, Ag, I, Sq, En, Md, Fl
@@ -127,3 +133,152 @@ def run(R):
     ctx.observers.remove(obs)
     R.analysed["unsupported"] = S.unsupported[:10]
     R.floor("lengths analysed", len(lens), 10)
+    clause_algebra(R)
+
+
+def clause_algebra(R):
+    import time, random
+    from . import symalg
+    from .symalg import poly, coeff_tags, cev, NotSymbolic
+    quick = R.tier != "thorough"
+    lengths = [1 << k for k in range(1, 11) if (1 << k) <= (128 if quick else 1024)]
+    prod_max = 16 if quick else 64
+    split_max = 64 if quick else 256
+    S = Session()
+    ctx = S.ctx
+    ctx.path_mode_fns = lambda inst: True
+    ctx.path_budget = 400000000
+    ctx.hooks["may_panic"] = lambda inst: False
+    ctx.hooks["inline"] = lambda c: "num::Complex" in c.name
+    ctx.hooks["exact_collect_max"] = 1100
+    fft, ifft = S.find(f"{IMPL}::fft"), S.find(f"{IMPL}::ifft")
+    split, merge = S.find(f"{IMPL}::split_fft"), S.find(f"{IMPL}::merge_fft")
+    hmul = S.find(f"polynomial::Polynomial::<{CPLX}>::hadamard_mul")
+    TOL = 1e-9
+
+    def evalall(tags, vals, stt=None):
+        memo = {}
+
+        def env(leaf):
+            if isinstance(leaf, tuple):        # an integer converted to f64 (e.g. the length): must be a constant
+                lo, hi = stt.itv.get(leaf[1], (None, None)) if stt is not None else (None, None)
+                return float(lo) if lo is not None and lo == hi else None
+            return vals.get(leaf, 0.0)
+        return [cev(t, env, memo) for t in tags]
+
+    def rand_vec(rnd, nm, n, real=False):
+        vals, v = {}, []
+        for j in range(n):
+            z = complex(rnd.uniform(-1, 1), 0.0 if real else rnd.uniform(-1, 1))
+            v.append(z)
+            vals[f"{nm}[{j}].re"], vals[f"{nm}[{j}].im"] = z.real, z.imag
+        return vals, v
+    times = {}
+    for n in lengths:
+        t0 = time.time()
+        rnd = random.Random(n)
+        st = St()
+        a = S.cell(st, "a", poly(S, st, "a", n))
+        outs = S.run(fft, [a], st)
+        site = f"complex fft, n = {n}"
+        try:
+            if len(outs) != 1:
+                raise NotSymbolic(f"{len(outs)} outcomes")
+            fa, s2 = outs[0]
+            tg = coeff_tags(fa)
+            if len(tg) != n:
+                raise NotSymbolic(f"{len(tg)} outputs")
+            e0 = evalall(tg, {"a[0].re": 1.0}, s2)
+            e1 = evalall(tg, {"a[1].re": 1.0}, s2)
+            ok = all(abs(x - 1) < TOL for x in e0)
+            roots = e1
+            ok = ok and all(abs(r ** n + 1) < 1e-7 for r in roots) and len({(round(r.real, 7), round(r.imag, 7)) for r in roots}) == n
+            worst = 0.0
+            for t in range(3):
+                vals, av = rand_vec(rnd, "a", n)
+                out = evalall(tg, vals, s2)
+                for i in range(n):
+                    acc, p = 0j, 1 + 0j
+                    for j in range(n):
+                        acc += av[j] * p
+                        p *= roots[i]
+                    worst = max(worst, abs(out[i] - acc) / (1 + abs(acc)))
+            ok = ok and worst < TOL
+            R.check(ok, "C13-algebra", site, f"output i = a(r_i) with r_i^{n} = -1, roots pairwise distinct (identity test, max deviation {worst:.1e})", f"not the evaluation at the roots of X^{n}+1 (deviation {worst:.2e})", key=f"alg|fft|{n}")
+            # inverse
+            S.cell(s2, "fa", fa)
+            o2 = S.run(ifft, [Pt(("h", "fa"))], s2)
+            okb = len(o2) == 1
+            if okb:
+                tb = coeff_tags(o2[0][0])
+                w2 = 0.0
+                for t in range(3):
+                    vals, av = rand_vec(rnd, "a", n)
+                    out = evalall(tb, vals, o2[0][1])
+                    w2 = max(w2, max(abs(out[j] - av[j]) for j in range(n)))
+                okb = len(tb) == n and w2 < TOL
+            R.check(okb, "C13-algebra", f"complex ifft(fft(a)), n = {n}", "equals a (identity test)", "the composition is not the identity", key=f"alg|inv|{n}")
+            if n <= prod_max:
+                s3 = o2[0][1] if okb else s2
+                b = S.cell(s3, "b", poly(S, s3, "b", n))
+                o3 = S.run(fft, [b], s3)
+                fbv, s4 = o3[0]
+                S.cell(s4, "fb", fbv)
+                o4 = S.run(hmul, [Pt(("h", "fa")), Pt(("h", "fb"))], s4)
+                pr, s5 = o4[0]
+                S.cell(s5, "pr", pr)
+                o5 = S.run(ifft, [Pt(("h", "pr"))], s5)
+                tp = coeff_tags(o5[0][0])
+                w3 = 0.0
+                for t in range(3):
+                    va, av = rand_vec(rnd, "a", n, real=True)
+                    vb, bv = rand_vec(rnd, "b", n, real=True)
+                    out = evalall(tp, dict(va, **vb), o5[0][1])
+                    for k in range(n):
+                        want = sum((av[i] * bv[j]) * (1 if i + j < n else -1) for i in range(n) for j in range(n) if (i + j) % n == k)
+                        w3 = max(w3, abs(out[k] - want))
+                R.check(w3 < TOL, "C13-algebra", f"complex ifft(fft(a) .* fft(b)), n = {n}", "equals the negacyclic product (identity test)", f"deviation {w3:.2e}", key=f"alg|prod|{n}")
+            if n <= split_max:
+                # merge(split(F)) = F on a symbolic F
+                st2 = St()
+                F = S.cell(st2, "F", poly(S, st2, "F", n))
+                os_ = S.run(split, [F], st2)
+                (f0f1, s6), = os_
+                S.cell(s6, "f0", f0f1.f[0])
+                S.cell(s6, "f1", f0f1.f[1])
+                om = S.run(merge, [Pt(("h", "f0")), Pt(("h", "f1"))], s6)
+                tm = coeff_tags(om[0][0])
+                w4 = 0.0
+                for t in range(3):
+                    vals, Fv = rand_vec(rnd, "F", n)
+                    out = evalall(tm, vals, om[0][1])
+                    w4 = max(w4, max(abs(out[j] - Fv[j]) for j in range(n)))
+                R.check(len(tm) == n and w4 < TOL, "C13-algebra", f"merge_fft(split_fft(F)), n = {n}", "equals F (identity test)", f"deviation {w4:.2e}", key=f"alg|merge|{n}")
+                # split(fft(a)) = (fft(a_even), fft(a_odd))
+                if n >= 4:
+                    S.cell(s2, "fa2", fa)
+                    osp = S.run(split, [Pt(("h", "fa2"))], s2)
+                    (sp, s7), = osp
+                    t0s, t1s = coeff_tags(sp.f[0]), coeff_tags(sp.f[1])
+                    st3 = St()
+                    h = S.cell(st3, "h", poly(S, st3, "h", n // 2))
+                    (fh, s8), = S.run(fft, [h], st3)
+                    th = coeff_tags(fh)
+                    w5 = 0.0
+                    for t in range(3):
+                        vals, av = rand_vec(rnd, "a", n)
+                        o0, o1 = evalall(t0s, vals, s7), evalall(t1s, vals, s7)
+                        for par, oo in ((0, o0), (1, o1)):
+                            hv = {}
+                            for j in range(n // 2):
+                                hv[f"h[{j}].re"], hv[f"h[{j}].im"] = av[2 * j + par].real, av[2 * j + par].imag
+                            ref = evalall(th, hv, s8)
+                            w5 = max(w5, max(abs(oo[i] - ref[i]) for i in range(n // 2)))
+                    R.check(w5 < TOL, "C13-algebra", f"split_fft(fft(a)), n = {n}", "equals (fft(a_even), fft(a_odd)) (identity test)", f"deviation {w5:.2e}", key=f"alg|split|{n}")
+        except (NotSymbolic, ValueError, IndexError, ZeroDivisionError) as e:
+            R.violation("C13-algebra", site, f"no symbolic form: {e}", key=f"alg|sym|{n}")
+        times[n] = round(time.time() - t0, 2)
+    R.analysed["algebra_lengths"] = lengths
+    R.analysed["algebra_seconds"] = times
+    R.analysed.setdefault("unsupported", []).extend(S.unsupported[:5])
+    R.floor("lengths with transform algebra", len(times), len(lengths))
